@@ -145,17 +145,25 @@ def replay_c10_histories(seed, histories):
         vobs = virtual_observations(system, h)
         if vobs is None:
             continue
-        sid = fe.new_sid('tcp')
-        try:
+        # the only real-time dependent step of the whole machinery: a disagreement must show in three consecutive replays (each
+        # on a fresh service id) before it is reported, so that a starved machine cannot raise an alarm; a wrong server is wrong
+        # every time
+        attempts = []
+        for attempt in range(3):
+            sid = fe.new_sid('tcp')
             try:
-                tobs = asyncio.run(asyncio.wait_for(_tcp_history(fx, h, vobs, sid), 60))
-            except asyncio.TimeoutError:
-                tobs = [('tcp-replay-timed-out',)]
-        finally:
-            shutil.rmtree(str(fe.mods()['sfm']._PROGRAM_PATH.joinpath(sid)), ignore_errors=True)
+                try:
+                    tobs = asyncio.run(asyncio.wait_for(_tcp_history(fx, h, vobs, sid), 60 * (attempt + 1)))
+                except asyncio.TimeoutError:
+                    tobs = [('tcp-replay-timed-out',)]
+            finally:
+                shutil.rmtree(str(fe.mods()['sfm']._PROGRAM_PATH.joinpath(sid)), ignore_errors=True)
+            attempts.append(tobs)
+            if [tuple(o) for o in tobs] == [tuple(o) for o in vobs]:
+                break
         n += 1
         if [tuple(o) for o in tobs] != [tuple(o) for o in vobs]:
-            bad.append({'history': list(h), 'virtual': vobs, 'tcp': tobs})
+            bad.append({'history': list(h), 'virtual': vobs, 'tcp': tobs, 'attempts': len(attempts)})
     return n, bad
 
 
@@ -215,22 +223,28 @@ def replay_c09_workflows(seed, cases):
         jdb = c09.json_dbs()[dbi]
         bdb = convert_database_keyword_to_bytes(jdb)
         cfg = sse.finalize_cfg(name, c09.wf_cfg(name), bdb)
-        try:
-            out = asyncio.run(asyncio.wait_for(_tcp_workflow(name, cfg, jdb, bits), 45))     # real seconds: bounded
-        except Exception as e:
-            bad.append({'scheme': name, 'db': dbi, 'bits': bits, 'tcp_error': core.exc_text(e)})
-            n += 1
-            continue
-        finally:
-            det.restore()
+        # real time: a failure must show in three consecutive attempts before it is reported (see replay_c10_histories)
+        for attempt in range(3):
+            this = []
+            try:
+                out = asyncio.run(asyncio.wait_for(_tcp_workflow(name, cfg, jdb, bits), 45 * (attempt + 1)))     # real seconds: bounded
+            except Exception as e:
+                this.append({'scheme': name, 'db': dbi, 'bits': bits, 'tcp_error': core.exc_text(e), 'attempts': attempt + 1})
+                out = {}
+            finally:
+                det.restore()
+            for (rnd, kw), res in [(k, v) for k, v in out.items() if k != 'sid']:
+                if not sse.result_ok(name, res, bdb.get(bytes(kw, 'utf-8'), [])):
+                    this.append({'scheme': name, 'db': dbi, 'bits': bits, 'keyword': kw, 'tcp_result': res, 'attempts': attempt + 1})
+            sid = out.get('sid')
+            if sid:
+                shutil.rmtree(str(fe.mods()['sfm']._PROGRAM_PATH.joinpath(sid)), ignore_errors=True)
+                shutil.rmtree(str(fe.mods()['cfm']._PROGRAM_PATH.joinpath(sid)), ignore_errors=True)
+            if not this:
+                break
+            det.seed_case(seed, 'C09-tcp', name, dbi)
         n += 1
-        for (rnd, kw), res in [(k, v) for k, v in out.items() if k != 'sid']:
-            if not sse.result_ok(name, res, bdb.get(bytes(kw, 'utf-8'), [])):
-                bad.append({'scheme': name, 'db': dbi, 'bits': bits, 'keyword': kw, 'tcp_result': res})
-        sid = out.get('sid')
-        if sid:
-            shutil.rmtree(str(fe.mods()['sfm']._PROGRAM_PATH.joinpath(sid)), ignore_errors=True)
-            shutil.rmtree(str(fe.mods()['cfm']._PROGRAM_PATH.joinpath(sid)), ignore_errors=True)
+        bad.extend(this)
     return n, bad
 
 
